@@ -32,7 +32,7 @@ def run(ctx):
     ss += S.generate(ctx, 5 if ctx.quick else 25, 8 if ctx.quick else 20, max_e=5, max_loops=3, routings_per_graph=1, kinds=("uniform",),
                      names=["tadpole", "tadpole_pair", "triangle_tadpole", "sunrise_tadpole"])
     ss += S.generate(ctx, 0, 3 if ctx.quick else 6, routings_per_graph=1, kinds=("uniform",),
-                     special=("integer_dod:4", "integer_dod:2", "integer_dod:3", "integer_dod:6", "vacuum_massless", "vacuum_massless", "vacuum") * (1 if ctx.quick else 4))
+                     special=("integer_dod:4", "integer_dod:2", "integer_dod:3", "integer_dod:6", "vacuum_massless", "vacuum_massless", "vacuum_mixed", "vacuum_mixed", "vacuum") * (1 if ctx.quick else 4))
     # a remainder that is ALMOST logarithmically divergent (omega = 1e-3 .. 1e-6: exponents 1/omega up to a million): the parameter of the next
     # edge is xi^(1/omega) whatever the size of the exponent
     from .. import graphs as G_
